@@ -19,6 +19,7 @@ import (
 	"regexp"
 	"strconv"
 	"sync"
+	"time"
 	"unsafe"
 )
 
@@ -167,8 +168,9 @@ func ExpectPanic() { expectP = true }
 // Symbolic reports whether the code runs inside the executor.
 func Symbolic() bool { return false }
 
-// RunPending lets queued goroutines run (executor only).
-func RunPending() {}
+// RunPending lets the other goroutines run until they block (executor: the cooperative scheduler runs every
+// logical thread until none can progress; natively: a short sleep).
+func RunPending() { time.Sleep(40 * time.Millisecond) }
 
 // HeldLocks returns the number of sync locks currently held by the logical thread (executor only; 0 natively).
 func HeldLocks() int { return 0 }
